@@ -2,6 +2,7 @@
 //! `lspsim worker <ID> …` (one simulation process; the hooks are process-global).
 mod c23;
 mod c24;
+mod c26;
 mod driver;
 mod model;
 mod sched;
@@ -11,6 +12,7 @@ fn def_of(id: &str) -> &'static driver::PropDef {
     match id.to_uppercase().as_str() {
         "C24" => &c24::DEF,
         "C23" => &c23::DEF,
+        "C26" => &c26::DEF,
         other => simcore::harness_error(&format!("unknown property {other}")),
     }
 }
